@@ -1,7 +1,7 @@
 #!/venv/bin/python
 """Determinism audit: for every check, the same VERIF_SEED and run index must give the same
 digest (event log + tape) in a second process, under another worker count and under another
-PYTHONHASHSEED in a fresh interpreter.  usage: tools/determinism_audit.py [--runs 2000] [C12 ...]"""
+PYTHONHASHSEED in a fresh interpreter.  usage: tools/determinism_audit.py [--runs 2000] [C12 ...]   (with check ids: merge the rewritten tools/determinism_results.json by hand)"""
 import json, os, subprocess, sys, tempfile
 HERE = os.path.dirname(os.path.abspath(__file__)); VERIF = os.path.dirname(HERE)
 ALL = "C01 C02 C03 C04 C05 C06 C07 C08 C09 C10 C11 C12 C13 C14 C15 C16 C17 C18 C20".split()
